@@ -13,6 +13,7 @@ import (
 	"fmt"
 	"io"
 	"runtime"
+	"strings"
 	"testing"
 	"time"
 
@@ -61,7 +62,7 @@ func c06Gen(t *rapid.T, tier string) any {
 			maxSize = 64 << 10
 		}
 	case "rabin1":
-		avg := rapid.SampledFrom([]int{48, 512, 16384, 262144}).Draw(t, "avg")
+		avg := rapid.SampledFrom([]int{1, 17, 30, 47, 48, 49, 512, 16384, 262144}).Draw(t, "avg")
 		c.Spec = fmt.Sprintf("rabin-%d", avg)
 		if avg <= 512 {
 			maxSize = 64 << 10
@@ -241,6 +242,15 @@ func c06Run(t *testing.T, ci any, trace bool) *verifsim.Result {
 		}
 		ref, err := FromString(bytes.NewReader(input), c.Spec)
 		if err != nil {
+			// The generator also draws the short rabin form with averages whose derived
+			// minimum (avg/3) is below 16, the documented lower bound of the explicit
+			// form: the parser may refuse those (a spec that is not accepted is outside
+			// the property); if it accepts one, the bounds below apply to it.
+			var avg int
+			if n, _ := fmt.Sscanf(c.Spec, "rabin-%d", &avg); n == 1 && strings.Count(c.Spec, "-") == 1 && avg/3 < 16 && errors.Is(err, ErrRabinMin) {
+				s.Probe("small-rabin-average-refused")
+				return
+			}
 			s.Failf("spec-rejected", "FromString rejected the specification %q: %v", c.Spec, err)
 			return
 		}
